@@ -285,9 +285,10 @@ theorem validate_defined (w : Nat) (hw : 0 < w) (q : Addr) (n asn : Nat) : ∀ (
 
 The trie model is written against `isLeft` / `prefixEq` (arithmetic on `Nat`).  The C code calls
 `lrtr_get_bits` (mask arithmetic on `uint32_t`, model `getBits32`).  These two theorems close the
-gap for IPv4.  For IPv6 (`lrtr_ipv6_get_bits`, the four-word cascade `ipv6GetBits`) the same link
-is established by correspondence only (ops `left` / `cov` of the pfx protocol compare the C
-function, the literal Lean function and the abstract one on boundary and random inputs). -/
+gap for IPv4; `bits_link6` / `bits_cover6` in RtrProps/C01b.lean close it for IPv6
+(`lrtr_ipv6_get_bits`, the four-word cascade `ipv6GetBits`).  The ops `left` / `cov` of the pfx
+protocol additionally compare the C function, the literal Lean function and the abstract one on
+boundary and random inputs. -/
 
 theorem bits_link4 (a : Nat) (lvl : Nat) :
     isLeftChildC4 (BitVec.ofNat 32 a) lvl = isLeft 32 a lvl := isLeftChildC4_eq a lvl
